@@ -379,3 +379,25 @@ PROPS["C06"] = dict(
                env={"GORACE": "halt_on_error=1"}, guard={"quick": 1200, "thorough": 10800}, shrinktime="60s")],
     min_class_fraction={"stage_closure_ran_on_another_goroutine": 0.2, "failing_element": 0.03, "stage_merge": 0.05, "terminal_multiUse": 0.02},
 )
+
+
+PROPS["C08"] = dict(
+    pkg="c08",
+    rule=("pipelines numbers(N) with N from {1e11, 5e9, 1e9, 100, 20, 3, 1, 0} -> map(e->cnt(e)) (cnt is a counting host function; in 1/8 of the "
+          "cases it is slow for the first 14 elements, which forces the switch to parallel execution) -> 0..4 lazy stages from accept, skip, "
+          "top, map, combine, number, iir, + -> a short-circuit consumer from first, top(n).size(), top(n).mapReduce, present, indexWhere, "
+          "top(1).single(), membership (~), multiUse({first, top(n).size()}), with the decisive element at every position k in 0..64 and "
+          "around 12 and the CPU count; in a third of the cases the counting closure throws at the first source index behind the read-ahead "
+          "window; in 1/6 of the cases the pipeline is only built (bound by let, or returned lazily) and not consumed. Oracle: a pull-based "
+          "Go model of every stage with the same value semantics computes D, the exact number of source elements a demand-driven "
+          "evaluation needs, and D_hi, the demand when every point that may read one element ahead does so (each top, the multiUse "
+          "distributor); while no closure ran on a goroutine other than the caller's (every map/accept closure carries a goroutine probe) "
+          "calls <= D_hi+1 is required, the value equals the model's, a failing element behind the window does not surface, and an "
+          "unconsumed pipeline makes 0 calls. Cases whose decisive demand exceeds 200 000 are skipped (not short-circuit). Non-trivial: "
+          "N >= 1e9 or a failing element is present, and D < N; distinct = the whole case."),
+    assumptions=["the counting function aborts the evaluation 100 000 calls behind the bound, so that a non-lazy implementation fails fast instead of hanging",
+                 "once any map/accept stage ran on worker goroutines the read-ahead is timing dependent: see finding F27"],
+    jobs=[dict(name="c08", run="^TestPropC08$", kind="rapid", shards=16, checks={"quick": 40000, "thorough": 2000000},
+               guard={"quick": 1200, "thorough": 10800})],
+    min_class_fraction={"pipeline_not_consumed": 0.08, "failing_element_behind_window": 0.2, "counter_ran_on_worker_goroutines": 0.02, "demand_exact": 0.3},
+)
